@@ -265,6 +265,31 @@ func errGuardedClosure(cl *ssa.Function, tr transferFn) (cell *ssa.Alloc, whenNo
 	if !isIf {
 		return nil, 0, 0, false
 	}
+	// the guard may also be a captured flag: `done := false; defer func() { if !done { cleanup } }()`,
+	// set only where the function is about to report success. "flag false" plays the part of "error
+	// non-nil", "flag true" that of "error nil" (see guardStateAt).
+	{
+		cond, neg := iff.Cond, false
+		if u, ok := cond.(*ssa.UnOp); ok && u.Op == token.NOT {
+			cond, neg = u.X, true
+		}
+		if u, ok := cond.(*ssa.UnOp); ok && u.Op == token.MUL && isBoolType(u) {
+			if fv, ok := u.X.(*ssa.FreeVar); ok {
+				if cell = cellOf(fv); cell != nil {
+					for _, in := range entry.Instrs {
+						if _, isCall := in.(ssa.CallInstruction); isCall {
+							return nil, 0, 0, false
+						}
+					}
+					t, f := guardSide(cl, entry, true, tr), guardSide(cl, entry, false, tr)
+					if neg {
+						return cell, t, f, true // true edge = flag false
+					}
+					return cell, f, t, true
+				}
+			}
+		}
+	}
 	bo, isBO := iff.Cond.(*ssa.BinOp)
 	if !isBO || (bo.Op != token.NEQ && bo.Op != token.EQL) {
 		return nil, 0, 0, false
@@ -296,36 +321,77 @@ func errGuardedClosure(cl *ssa.Function, tr transferFn) (cell *ssa.Alloc, whenNo
 			return nil, 0, 0, false
 		}
 	}
-	side := func(takeTrueEdge bool) uint64 {
-		pa := newPathAnalysis(cl, tr)
-		pa.edge = func(pred, succ *ssa.BasicBlock, _ uint64) bool {
-			if pred != entry {
-				return true
-			}
-			if takeTrueEdge {
-				return succ == entry.Succs[0]
-			}
-			return succ == entry.Succs[1]
-		}
-		pa.run(0)
-		must := ^uint64(0)
-		any := false
-		for _, ret := range returnsOf(cl) {
-			for _, ev := range pa.statesBefore(ret) {
-				must &= ev
-				any = true
-			}
-		}
-		if !any {
-			return 0
-		}
-		return must
-	}
-	t, f := side(true), side(false)
+	t, f := guardSide(cl, entry, true, tr), guardSide(cl, entry, false, tr)
 	if bo.Op == token.NEQ {
 		return cell, t, f, true
 	}
 	return cell, f, t, true
+}
+
+// guardSide: the events certain on every path through closure cl that leaves its entry test over the
+// given edge.
+func guardSide(cl *ssa.Function, entry *ssa.BasicBlock, takeTrueEdge bool, tr transferFn) uint64 {
+	pa := newPathAnalysis(cl, tr)
+	pa.edge = func(pred, succ *ssa.BasicBlock, _ uint64) bool {
+		if pred != entry {
+			return true
+		}
+		if takeTrueEdge {
+			return succ == entry.Succs[0]
+		}
+		return succ == entry.Succs[1]
+	}
+	pa.run(0)
+	must := ^uint64(0)
+	any := false
+	for _, ret := range returnsOf(cl) {
+		for _, ev := range pa.statesBefore(ret) {
+			must &= ev
+			any = true
+		}
+	}
+	if !any {
+		return 0
+	}
+	return must
+}
+
+// guardStateAt: the state of the variable a deferred cleanup is guarded by, at the end of block b: for an
+// error variable its nil-ness; for a bool flag, false counts as "non-nil" (the cleanup runs) and true as
+// "nil" (it does not).
+func guardStateAt(cell *ssa.Alloc, b *ssa.BasicBlock) nilState {
+	if isErrorType(derefType(cell.Type())) {
+		return cellNilnessAt(cell, b)
+	}
+	// the last constant stored on every way to the end of b
+	var doms []*ssa.Store
+	for _, st := range cellStores(cell) {
+		if st.Parent() != b.Parent() {
+			return nilUnknown // written inside a closure
+		}
+		if st.Block() == b || st.Block().Dominates(b) {
+			doms = append(doms, st)
+		} else if reachesBlock(st.Block(), b) {
+			return nilUnknown // a store on some, not all, ways here
+		}
+	}
+	var last *ssa.Store
+	for _, st := range doms {
+		if last == nil || last.Block().Dominates(st.Block()) && last.Block() != st.Block() || (last.Block() == st.Block() && instrIndexIn(last) < instrIndexIn(st)) {
+			last = st
+		}
+	}
+	if last == nil {
+		return nilUnknown
+	}
+	k, ok := constBool(last.Val)
+	if !ok {
+		return nilUnknown
+	}
+	if k {
+		return isNil
+	}
+	return nonNil
 }
 
 // role of a completion call in a file-producing function
@@ -738,7 +804,7 @@ func r6ProducerBody(c *RuleCtx, fn *ssa.Function, props []string, name string, a
 			// depends on that variable at this exit
 			if deferred && pa != nil && pa.cur != nil {
 				if cell, whenNonNil, whenNil, ok := errGuardedClosure(callee, tr); ok {
-					switch cellNilnessAt(cell, pa.cur) {
+					switch guardStateAt(cell, pa.cur) {
 					case nonNil:
 						return []uint64{ev | whenNonNil}
 					case isNil:
@@ -947,8 +1013,12 @@ func r6ProducerBody(c *RuleCtx, fn *ssa.Function, props []string, name string, a
 					why = append(why, "the output path is removed on a success path")
 				}
 				if ev&evClosed == 0 {
-					okc = false
-					why = append(why, "the file is not closed before reporting success")
+					// a delegate that only writes (and leaves Sync/Close to the producer, which is
+					// judged for them) has nothing to close
+					if !(delegateMode && len(closeSites) == 0) {
+						okc = false
+						why = append(why, "the file is not closed before reporting success")
+					}
 				} else if ev&evOrderly == 0 && viaReturned&evClosed == 0 && len(closeSites) > 0 {
 					okc = false
 					why = append(why, "the file was closed before every completion step (and Sync) had run")
@@ -1112,7 +1182,6 @@ func r6ToWriter(c *RuleCtx) {
 	if fn == nil {
 		return
 	}
-	name := fn.Name()
 	// the io.Writer parameter
 	var wparam *ssa.Parameter
 	for _, p := range fn.Params {
@@ -1121,15 +1190,25 @@ func r6ToWriter(c *RuleCtx) {
 		}
 	}
 	if wparam == nil {
-		c.undecidedP(props, name+"/writer-param", c.fpos(fn), "the destination writer parameter is found", "no interface-typed parameter")
+		c.undecidedP(props, fn.Name()+"/writer-param", c.fpos(fn), "the destination writer parameter is found", "no interface-typed parameter")
 		return
 	}
+	r6ToWriterIn(c, fn, wparam, props, fn.Name(), 0)
+}
+
+// r6ToWriterIn judges fn as (part of) the routine that writes a segment to the destination writer wparam:
+// body (SegmentBase.mem), footer, Flush — in that order, each error tested before success is reported.
+// A function of the package that is handed (a wrapper of) the writer does part of the job; it is judged
+// by the same discipline and what it has certainly done when it reports success counts at its call.
+// Returns the steps certain at fn's success exits.
+func r6ToWriterIn(c *RuleCtx, fn *ssa.Function, wparam *ssa.Parameter, props []string, name string, depth int) uint64 {
 	const (
 		evBody   = 1 << 0
 		evFooter = 1 << 1
 		evFlush  = 1 << 2
 	)
-	var bodySites, footerSites, flushSites []ssa.CallInstruction
+	var bodySites, footerSites, flushSites, partSites []ssa.CallInstruction
+	partEvents := map[ssa.CallInstruction]uint64{}
 	for _, cs := range callSites(fn) {
 		callee := staticCallee(cs)
 		cc := cs.Common()
@@ -1153,21 +1232,42 @@ func r6ToWriter(c *RuleCtx) {
 					}
 				}
 			}
+			continue
 		}
 		if callee != nil && namedFn(callee, "persistFooter") {
 			if len(args) > 0 && wraps(args[len(args)-1], wparam, 0) {
 				footerSites = append(footerSites, cs)
 			}
+			continue
 		}
 		if callee != nil && callee.String() == "(*bufio.Writer).Flush" && wraps(recvOrArg0(cs), wparam, 0) {
 			flushSites = append(flushSites, cs)
+			continue
+		}
+		// a helper of the package that is handed the writer
+		if callee != nil && c.p.InZap(callee) && len(callee.Blocks) > 0 && depth < 2 && errorResultIndex(callee.Signature) >= 0 {
+			for ai, a := range args {
+				if ai < len(callee.Params) && types.IsInterface(callee.Params[ai].Type()) && wraps(a, wparam, 0) {
+					if ev := r6ToWriterIn(c, callee, callee.Params[ai], props, name+">"+callee.Name(), depth+1); ev != 0 {
+						partSites = append(partSites, cs)
+						partEvents[cs] = ev
+					}
+					break
+				}
+			}
 		}
 	}
-	c.add(statusOf(len(bodySites) > 0), name+"/body-write", c.fpos(fn), "the segment bytes (SegmentBase.mem) are written to the destination", "no Write of SegmentBase.mem to (a wrapper of) the destination writer found", props, nil)
-	c.add(statusOf(len(footerSites) > 0), name+"/footer-write", c.fpos(fn), "persistFooter is called on the destination", "no persistFooter call on (a wrapper of) the destination writer found", props, nil)
-	c.add(statusOf(len(flushSites) > 0), name+"/flush", c.fpos(fn), "the buffered writer around the destination is flushed", "no Flush of the bufio.Writer around the destination found", props, nil)
-	if len(bodySites) == 0 || len(footerSites) == 0 || len(flushSites) == 0 {
-		return
+	var partAll uint64
+	for _, ev := range partEvents {
+		partAll |= ev
+	}
+	if depth == 0 {
+		c.add(statusOf(len(bodySites) > 0 || partAll&evBody != 0), name+"/body-write", c.fpos(fn), "the segment bytes (SegmentBase.mem) are written to the destination", "no Write of SegmentBase.mem to (a wrapper of) the destination writer found", props, nil)
+		c.add(statusOf(len(footerSites) > 0 || partAll&evFooter != 0), name+"/footer-write", c.fpos(fn), "persistFooter is called on the destination", "no persistFooter call on (a wrapper of) the destination writer found", props, nil)
+		c.add(statusOf(len(flushSites) > 0 || partAll&evFlush != 0), name+"/flush", c.fpos(fn), "the buffered writer around the destination is flushed", "no Flush of the bufio.Writer around the destination found", props, nil)
+	}
+	if len(bodySites)+len(footerSites)+len(flushSites)+len(partSites) == 0 {
+		return 0
 	}
 	in := func(list []ssa.CallInstruction, x ssa.Instruction) bool {
 		for _, s := range list {
@@ -1185,10 +1285,15 @@ func r6ToWriter(c *RuleCtx) {
 			return []uint64{ev | evFooter}
 		case in(flushSites, i):
 			return []uint64{ev | evFlush}
+		case in(partSites, i):
+			return []uint64{ev | partEvents[i.(ssa.CallInstruction)]}
 		}
 		return nil
 	}
-	pa := newPathAnalysis(fn, tr)
+	et := newErrTracker(fn, 4)
+	pa := newPathAnalysis(fn, et.wrap(tr))
+	pa.edgeTr = et.edgeTr
+	pa.edge = et.edge
 	pa.run(0)
 	// order
 	for _, s := range footerSites {
@@ -1197,6 +1302,11 @@ func r6ToWriter(c *RuleCtx) {
 			if ev&evBody == 0 {
 				okc = false
 			}
+		}
+		// (a helper that is only handed the footer to write has no body in front of it: the order is
+		// judged where both are visible)
+		if depth > 0 && len(bodySites) == 0 && partAll&evBody == 0 {
+			continue
 		}
 		c.add(statusOf(okc), name+"/order/footer-after-body", c.pos(s), "the footer is written after the segment bytes", "persistFooter can run before the body was written", props, nil)
 	}
@@ -1207,8 +1317,27 @@ func r6ToWriter(c *RuleCtx) {
 				okc = false
 			}
 		}
+		if depth > 0 && len(footerSites) == 0 && partAll&evFooter == 0 {
+			continue
+		}
 		c.add(statusOf(okc), name+"/order/flush-after-footer", c.pos(s), "Flush runs after the footer was written", "Flush can run before persistFooter", props, nil)
 	}
+	for _, s := range partSites {
+		// a part that writes the footer must come after the body, one that flushes after the footer
+		okc := true
+		for _, ev := range pa.statesBefore(s) {
+			pe := partEvents[s]
+			if pe&evFooter != 0 && pe&evBody == 0 && ev&evBody == 0 {
+				okc = false
+			}
+			if pe&evFlush != 0 && pe&evFooter == 0 && ev&evFooter == 0 {
+				okc = false
+			}
+		}
+		c.add(statusOf(okc), name+"/order/"+calleeName(s), c.pos(s), "the steps of the writer routine keep their order (body, footer, Flush) across helpers", "a helper writes the footer before the body, or flushes before the footer", props, nil)
+	}
+	must := uint64(evBody | evFooter | evFlush)
+	nSucc := 0
 	labels := map[string]int{}
 	for _, ret := range returnsOf(fn) {
 		if !pa.reachable(ret.Block()) {
@@ -1220,15 +1349,25 @@ func r6ToWriter(c *RuleCtx) {
 			c.okP(props, key, c.pos(ret), "failure exit of the writer routine propagates a non-nil error")
 			continue
 		}
+		nSucc++
 		okc := true
 		var why []string
+		// a part whose error is the very value returned here has, where that value is nil, done its steps
+		var viaReturned uint64
+		for _, s := range partSites {
+			if ev := errValueOfCall(s); ev != nil && v != nil && (sameValue(ev, v) || sameValue(ev, resolveLoad(v))) {
+				viaReturned |= partEvents[s]
+			}
+		}
 		for _, ev := range pa.statesBefore(ret) {
-			if ev&evBody == 0 || ev&evFooter == 0 || ev&evFlush == 0 {
+			ev |= viaReturned
+			must &= ev
+			if depth == 0 && (ev&evBody == 0 || ev&evFooter == 0 || ev&evFlush == 0) {
 				okc = false
 				why = append(why, "a path reports success without body+footer+flush")
 			}
 		}
-		for _, group := range [][]ssa.CallInstruction{bodySites, footerSites, flushSites} {
+		for _, group := range [][]ssa.CallInstruction{bodySites, footerSites, flushSites, partSites} {
 			for _, s := range group {
 				ev := errValueOfCall(s)
 				if ev == nil {
@@ -1236,17 +1375,34 @@ func r6ToWriter(c *RuleCtx) {
 					why = append(why, "error of "+calleeName(s)+" discarded")
 					continue
 				}
-				if sameValue(ev, v) {
+				if sameValue(ev, v) || sameValue(ev, resolveLoad(v)) {
 					continue
 				}
-				if s.Block().Dominates(ret.Block()) && nilnessAt(ev, ret.Block()) != isNil {
+				if s.Block().Dominates(ret.Block()) && nilnessAt(ev, ret.Block()) == isNil {
+					continue
+				}
+				unknown := false
+				for _, st := range pa.statesBefore(ret) {
+					if et.notFoundNil(ev, st) {
+						unknown = true
+					}
+				}
+				if unknown {
 					okc = false
 					why = append(why, "error of "+calleeName(s)+" ("+c.pos(s)+") not known nil at success")
 				}
 			}
 		}
-		c.add(statusOf(okc), key+"/complete", c.pos(ret), "the writer routine reports success only after body, footer and Flush succeeded", strings.Join(uniq(why), "; "), props, exitWitness(c, ret, v))
+		what := "the writer routine reports success only after body, footer and Flush succeeded"
+		if depth > 0 {
+			what = name + " reports success only after each of its steps succeeded"
+		}
+		c.add(statusOf(okc), key+"/complete", c.pos(ret), what, strings.Join(uniq(why), "; "), props, exitWitness(c, ret, v))
 	}
+	if nSucc == 0 {
+		return 0
+	}
+	return must
 }
 
 // --- R6c: Open ----------------------------------------------------------------
@@ -1387,7 +1543,11 @@ func r6Open(c *RuleCtx) {
 		}
 		return nil
 	}
-	pa := newPathAnalysis(fn, tr)
+	// errors folded into one variable (`if err == nil { err = rv.loadFieldsNew() }`) are followed
+	et := newErrTracker(fn, uint(loadBase+len(loaders)+1))
+	pa := newPathAnalysis(fn, et.wrap(tr))
+	pa.edgeTr = et.edgeTr
+	pa.edge = et.edge
 	pa.run(0)
 	labels := map[string]int{}
 	for _, ret := range returnsOf(fn) {
@@ -1440,7 +1600,21 @@ func r6Open(c *RuleCtx) {
 					why = append(why, "error of "+l.name+" discarded")
 					continue
 				}
-				if l.site.Block().Dominates(ret.Block()) && nilnessAt(ev, ret.Block()) != isNil && !sameValue(ev, v) {
+				if sameValue(ev, v) {
+					continue
+				}
+				if l.site.Block().Dominates(ret.Block()) && nilnessAt(ev, ret.Block()) == isNil {
+					continue
+				}
+				// path-sensitively: on no path that returns the segment did this loader run without
+				// its error having been found nil since
+				unknown := false
+				for _, st := range pa.statesBefore(ret) {
+					if et.notFoundNil(ev, st) {
+						unknown = true
+					}
+				}
+				if unknown {
 					okc = false
 					why = append(why, "error of "+l.name+" not known nil when the segment is returned")
 				}
@@ -1731,17 +1905,89 @@ func r6VectorMerge(c *RuleCtx) {
 		}
 	}
 	c.add(statusOf(len(freeFns) > 0), "free-routine", "-", "a routine that closes every reconstructed index of a []*vecIndexInfo exists", "no such routine found", props, nil)
+	// a free routine that forgets each index it closed (`entry.index = nil` right after the Close) can
+	// run twice: the second run finds nothing to close
+	idempotent := func(f *ssa.Function) bool {
+		if f == nil {
+			return false
+		}
+		okAll, n := true, 0
+		var visit func(g *ssa.Function, depth int)
+		visit = func(g *ssa.Function, depth int) {
+			if depth > 3 {
+				okAll = false
+				return
+			}
+			for _, cs := range callSites(g) {
+				if iv, isClose := faissCloseOf(cs); isClose {
+					sn, fld, base, ok := loadedField(iv)
+					if !ok || sn != holder.st || fld != holder.fld {
+						continue
+					}
+					n++
+					forgot := false
+					for _, in := range cs.Block().Instrs[instrIndexIn(cs):] {
+						if st, ok := in.(*ssa.Store); ok && isNilConst(st.Val) {
+							if sn2, fld2, base2, ok := fieldOf(st.Addr); ok && sn2 == sn && fld2 == fld && root(base2) == root(base) {
+								forgot = true
+							}
+						}
+					}
+					if !forgot {
+						okAll = false
+					}
+				} else if h := staticCallee(cs); h != nil && freeFns[h] && h != g {
+					visit(h, depth+1)
+				}
+			}
+		}
+		visit(f, 0)
+		return okAll && n > 0
+	}
+	// methods of the holder that store a native index into their own receiver (`(e *vecIndexInfo) load`):
+	// the entry owns the index from then on, the duty to free lies with whoever holds the slice of
+	// entries — a call of such a method counts as the store
+	fillers := map[*ssa.Function]bool{}
+	for _, fn := range c.p.ZapFuncs {
+		if fn.Signature.Recv() == nil || len(fn.Params) == 0 || fn.Parent() != nil {
+			continue
+		}
+		if pt, ok := fn.Signature.Recv().Type().Underlying().(*types.Pointer); !ok || !isNamed(pt.Elem(), zapPkgPath, holder.st) {
+			continue
+		}
+		n, own := 0, 0
+		eachInstr(fn, func(_ *ssa.BasicBlock, in ssa.Instruction) {
+			if st, ok := in.(*ssa.Store); ok {
+				if sn, fld, base, ok := fieldOf(st.Addr); ok && sn == holder.st && fld == holder.fld && !isNilConst(st.Val) {
+					n++
+					if root(base) == ssa.Value(fn.Params[0]) {
+						own++
+					}
+				}
+			}
+		})
+		if n > 0 && n == own {
+			fillers[fn] = true
+		}
+	}
 	// functions that store a native index into the holder field
 	for _, fn := range c.p.ZapFuncs {
+		if fillers[fn] {
+			continue
+		}
 		var storeSites []*ssa.Store
+		var fillSites []ssa.Instruction
 		eachInstr(fn, func(_ *ssa.BasicBlock, in ssa.Instruction) {
 			if st, ok := in.(*ssa.Store); ok {
 				if sn, fld, _, ok := fieldOf(st.Addr); ok && sn == holder.st && fld == holder.fld && !isNilConst(st.Val) {
 					storeSites = append(storeSites, st)
 				}
 			}
+			if cs, ok := in.(ssa.CallInstruction); ok && fillers[staticCallee(cs)] {
+				fillSites = append(fillSites, in)
+			}
 		})
-		if len(storeSites) == 0 {
+		if len(storeSites) == 0 && len(fillSites) == 0 {
 			continue
 		}
 		name := funcShortName(fn)
@@ -1750,13 +1996,21 @@ func r6VectorMerge(c *RuleCtx) {
 			evFreed  = 1 << 1
 			evDouble = 1 << 2
 		)
-		tr := func(in ssa.Instruction, ev uint64, _ bool) []uint64 {
+		tr := func(in ssa.Instruction, ev uint64, deferred bool) []uint64 {
 			if st, ok := in.(*ssa.Store); ok {
 				for _, s := range storeSites {
 					if s == st {
 						return []uint64{(ev | evStored) &^ evFreed}
 					}
 				}
+			}
+			for _, fs := range fillSites {
+				if fs == in {
+					return []uint64{(ev | evStored) &^ evFreed}
+				}
+			}
+			if _, isDefer := in.(*ssa.Defer); isDefer && !deferred {
+				return nil // registered here, runs at the exits
 			}
 			if cs, ok := in.(ssa.CallInstruction); ok {
 				f := resolvedCallee(cs)
@@ -1786,7 +2040,7 @@ func r6VectorMerge(c *RuleCtx) {
 					}
 				}
 				if frees {
-					if ev&evFreed != 0 && ev&evStored != 0 {
+					if ev&evFreed != 0 && ev&evStored != 0 && !idempotent(f) {
 						return []uint64{ev | evDouble}
 					}
 					return []uint64{ev | evFreed}
@@ -1918,7 +2172,7 @@ func r6FaissProducers(c *RuleCtx) {
 							// variable at this exit
 							if deferred && pa != nil && pa.cur != nil {
 								if cell, whenNonNil, whenNil, ok := errGuardedClosure(cl, tr); ok {
-									switch cellNilnessAt(cell, pa.cur) {
+									switch guardStateAt(cell, pa.cur) {
 									case nonNil:
 										return []uint64{ev | whenNonNil}
 									case isNil:
